@@ -1630,6 +1630,40 @@ def patched(modules, extra=None):
                 m.__dict__[k] = v
 
 
+def rankdata_shim(a, method="average", axis=None, **kw):
+    """model of scipy.stats.rankdata for symbolic data (merged, no forking): rank = 1 + #smaller + (#equal others)/2 for 'average',
+    1 + #smaller for 'min', #smaller-or-equal for 'max'; along `axis` (None: flattened)"""
+    arr = np.asarray(a.d if isinstance(a, SSparse) else a, dtype=object)
+    if not any(isinstance(x, (SV, SB)) and sx.is_sym(x.v) for x in arr.ravel()):
+        from scipy.stats import rankdata as _rd
+        return _rewrap(_rd(np.array([float(unwrap(x)) for x in arr.ravel()]).reshape(arr.shape), method=method, axis=axis, **kw))
+    if method not in ("average", "min", "max"):
+        raise Unsupported(f"rankdata method {method}")
+
+    def rank1d(vals):
+        out = []
+        for t, x in enumerate(vals):
+            less = sx.total(sx.ite(sx.lt(_num(y), _num(x)), 1, 0) for u, y in enumerate(vals) if u != t)
+            same = sx.total(sx.ite(sx.eq(_num(y), _num(x)), 1, 0) for u, y in enumerate(vals) if u != t)
+            if method == "average":
+                out.append(wrap(sx.add(sx.add(1, less), sx.div(same, 2))))
+            elif method == "min":
+                out.append(wrap(sx.add(1, less)))
+            else:
+                out.append(wrap(sx.add(sx.add(1, less), same)))
+        return out
+    if axis is None:
+        return SymNd(np.array(rank1d(list(arr.ravel())), dtype=object))
+    res = np.empty(arr.shape, dtype=object)
+    moved = np.moveaxis(arr, axis, -1)
+    rmoved = np.moveaxis(res, axis, -1)
+    for idx in np.ndindex(moved.shape[:-1]):
+        r = rank1d(list(moved[idx]))
+        for k, v in enumerate(r):
+            rmoved[idx + (k,)] = v
+    return SymNd(res)
+
+
 def clear_caches(*classes):
     for cls in classes:
         for klass in cls.__mro__:
